@@ -100,3 +100,29 @@ theorem liveCells_append_nones (l : List (Option Cell)) (k : Nat) :
   | succ k ih => simp [List.replicate_succ', ← List.append_assoc, ih]
 
 end Heap
+
+namespace Heap
+
+/-- two cell lists that read alike at every index hold the same live blocks (they can differ only in trailing released cells) -/
+theorem blocks_sum_of_get_eq : ∀ (l l' : List (Option Cell)), (∀ i : Nat, (l[i]?).join = (l'[i]?).join) → (l.map blocksOf).sum = (l'.map blocksOf).sum
+  | [], [], _ => rfl
+  | [], c :: l', e => by
+    have h0 : (none : Option Cell) = c := by have := e 0; simpa using this
+    have ht := blocks_sum_of_get_eq [] l' (fun i => by have := e (i + 1); simpa using this)
+    simp only [List.map_cons, List.sum_cons, ← ht]
+    subst h0; simp [blocksOf]
+  | c :: l, [], e => by
+    have h0 : c = (none : Option Cell) := by have := e 0; simpa using this
+    have ht := blocks_sum_of_get_eq l [] (fun i => by have := e (i + 1); simpa using this)
+    simp only [List.map_cons, List.sum_cons, ht]
+    subst h0; simp [blocksOf]
+  | c :: l, c' :: l', e => by
+    have h0 : c = c' := by have := e 0; simpa using this
+    have ht := blocks_sum_of_get_eq l l' (fun i => by have := e (i + 1); simpa using this)
+    simp only [List.map_cons, List.sum_cons, ht, h0]
+
+theorem liveBlocks_of_get_eq {h h' : H} (e : ∀ r : Nat, h'.get r = h.get r) : h'.liveBlocks = h.liveBlocks := by
+  rw [liveBlocks_eq, liveBlocks_eq]
+  exact blocks_sum_of_get_eq _ _ (fun i => e i)
+
+end Heap
